@@ -4,12 +4,16 @@
    Modelled (Model/TypeId.v): the type-id encoding of convert.rs (`simple_id*`,
    `to_type_id` with its table and per-kind counters) and the bit-field readers
    of core/src/meta.capy.  Proved here: the encoding/decoding facts and id
-   injectivity for simple (bit-packed) ids, and the arithmetic of compound ids.
-   NOT proved (exercised by the correspondence streams only): that the emitted
-   info/layout tables of ty_info.rs are indexed consistently with the counters
-   over arbitrary call sequences, member/variant/offset tables, `any`. *)
+   injectivity for simple (bit-packed) ids, the arithmetic of compound ids, and
+   the table invariant of the to_type_id walk for ANY sequence of requests (a type
+   keeps its id; different compound types never share one; id equality = type
+   equality outside the known isize/i64 class).
+   NOT proved (exercised by the correspondence streams only): that the layout /
+   info arrays which ty_info.rs emits are in the order of the per-kind counters
+   (so that index i of a kind's array describes the type numbered i), the
+   member/variant/offset tables, and the `any` / `type` casts. *)
 From Capy Require Import Common.Util Common.LTy Common.Layout Spec.CLayout Model.TypeId
-  Proofs.LayoutSpecProofs Proofs.TypeIdProofs.
+  Proofs.LayoutSpecProofs Proofs.TypeIdProofs Proofs.TypeIdInvariant.
 Local Open Scope N_scope.
 
 (* 1. meta.capy's readers recover discriminant, size, align and flag bit from every
@@ -77,6 +81,52 @@ Theorem C18_compound_id_not_simple : forall k c pw t r id, c < 2 ^ 26 -> ptr_wid
   is_polyfn t = false -> simple_type_id pw t = Some r -> r = Ok id -> id <> compound_id k c.
 Proof. exact compound_id_not_simple. Qed.
 Print Assumptions C18_compound_id_not_simple.
+
+(* 6. The table walk, for ANY sequence of requests [ts] on one MetaTyData
+   ([tid_seq] = successive `to_type_id` calls; [rs] the returned ids).
+   (a) The id of a type is a function of the type: two requests for the same type
+   return the same id, whatever was requested in between and whatever the
+   starting table.  No side condition. *)
+Theorem C18_same_type_same_id : forall pw ts st rs st' i j t id1 id2,
+  tid_seq pw ts st = (rs, st') ->
+  nth_error ts i = Some t -> nth_error rs i = Some (Ok id1) ->
+  nth_error ts j = Some t -> nth_error rs j = Some (Ok id2) ->
+  id1 = id2.
+Proof. exact same_type_same_id. Qed.
+Print Assumptions C18_same_type_same_id.
+
+(* (b) Starting from the empty table, two requests that return the same id asked for
+   the same type - except for the known class (isize/usize vs the fixed-width int
+   of pointer size) and `file` types.  [bounded st'] : every per-kind counter of the
+   final table is <= 2^26 (not checked by the code); [runtime_ok t] : a bit-packed
+   type is well-formed and can exist at run time (no weak/unresolved types). *)
+Theorem C18_same_id_same_type_except_known : forall pw ts rs st' i j t1 t2 id, ptr_width pw ->
+  tid_seq pw ts meta0 = (rs, st') -> bounded st' ->
+  nth_error ts i = Some t1 -> nth_error rs i = Some (Ok id) ->
+  nth_error ts j = Some t2 -> nth_error rs j = Some (Ok id) ->
+  runtime_ok t1 -> runtime_ok t2 ->
+  t1 = t2 \/ known_pair pw t1 t2 = true \/ file_pair t1 t2 = true.
+Proof. exact same_id_same_type. Qed.
+Print Assumptions C18_same_id_same_type_except_known.
+
+(* The invariant behind (a) and (b), per request: the table only grows (by types no
+   larger than the requested one), counters only grow, the requested type is found
+   with the returned id afterwards, and [Inv] (every compound entry has index <
+   its kind's counter, compound entries have pairwise different ids, every
+   bit-packed entry has its simple id) is preserved. *)
+Theorem C18_request_preserves_invariant : forall pw t st id st', tid pw t st = Ok (id, st') ->
+  extends st st' (lsize t) /\ mono st st' /\ find_id t (ids st') = Some id /\
+  (Inv pw st -> bounded st' -> Inv pw st').
+Proof. exact tid_invariant. Qed.
+Print Assumptions C18_request_preserves_invariant.
+
+(* the table lookup compares types structurally *)
+Theorem C18_lty_eqb_sound : forall a b, lty_eqb a b = true -> a = b.
+Proof. exact lty_eqb_sound. Qed.
+Print Assumptions C18_lty_eqb_sound.
+Theorem C18_lty_eqb_refl : forall a, lty_eqb a a = true.
+Proof. exact lty_eqb_refl. Qed.
+Print Assumptions C18_lty_eqb_refl.
 
 (* Non-vacuity: a call sequence on one table; the second `[2]i8` is found again,
    the nested array is numbered after its element type, isize collides with i64. *)
